@@ -85,7 +85,9 @@ macro_rules
       | (have hm := Mem.deallocate_memOf (by assumption); exact memExt_chunks (Mem.MemExt.of_eq hm) rfl)
       | (have hm := Mem.resetTo_memOf (by assumption); exact memExt_chunks (Mem.MemExt.of_eq hm) rfl)
       | (have hm := Mem.alignTo_memOf (by assumption); exact memExt_chunks (Mem.MemExt.of_eq hm) rfl)
-      | (have hm := Mem.alignGuardDrop_memOf (by assumption); exact memExt_chunks (Mem.MemExt.of_eq hm) rfl))
+      | (have hm := Mem.alignGuardDrop_memOf (by assumption); exact memExt_chunks (Mem.MemExt.of_eq hm) rfl)
+      | (have hm1 := Mem.alignGuardDrop_memOf (by assumption); have hm2 := Mem.alignChunkAt_memOf (by assumption)
+         exact memExt_chunks (Mem.MemExt.of_eq (hm2.trans hm1)) rfl))
 
 /-- split a `stepCore` equation completely and close every leaf with `memext_leaf` -/
 syntax "memext_op " ident : tactic
